@@ -70,7 +70,7 @@ def variants_table():
     allv = mutants.CATALOGUE + mutants.fix_reverts()
     for p in sorted({v.prop for v in allv}):
         b = [v.vid for v in allv if v.prop == p and v.kind == "break"]
-        t = [v.vid for v in allv if v.prop == p and v.kind == "twin"] + ["auto-rename-all-locals"]
+        t = [v.vid for v in allv if v.prop == p and v.kind == "twin"] + ["auto-rename-all-locals", "auto-reformat-python", "auto-rename-kernel-params"]
         out.append(f"| {p} | {len(b)}: " + ", ".join(b) + f" | {len(t)}: " + ", ".join(t) + " |")
     return "\n".join(out)
 
